@@ -6,7 +6,6 @@ package main
 import (
 	"errors"
 	"fmt"
-	"math"
 	"strings"
 
 	"go.sia.tech/core/consensus"
@@ -610,4 +609,3 @@ func join(ls ...[]string) []string {
 	return out
 }
 
-var _ = math.MaxUint64
